@@ -176,7 +176,9 @@ class Tokenizer:
                     lines.setdefault(tok.start[0], tok.line)  # the last line of a multi-line token that ends the statement
                     break
                 elif not tok.string:
-                    # empty new line added by the tokenizer
+                    # empty new line added by the tokenizer at the end of the input: the line it closes may be
+                    # the last line of a multi-line string, which no other token has shown yet
+                    lines.setdefault(tok.start[0], tok.line)
                     continue
 
             # update captured lines
